@@ -1022,7 +1022,8 @@ class MonC03(Monitor):
                 last_p = next((s for s in reversed(pre["slots"]) if s[0] == "P" and not s[6]), None)
                 if last_p is not None and not mod2pi_close(last_p[7], float(Fraction(pulses[-1]["ph"])), 0.0):
                     fall = last_p[5] if pre["in_eom"] else last_p[4]
-                    buf = max(doc_phase_jump_time(ch), 2 * doc_rise_time(ch) * int(pre["in_eom"])) + fall - (t0 - last_p[2])
+                    eom_wait = (2 * max(doc_rise_time(ch), doc_rise_time(ch.eom_config)) if pre["in_eom"] else 0)
+                    buf = max(doc_phase_jump_time(ch), eom_wait) + fall - (t0 - last_p[2])
                 need = max([t0, B] + ends) - t0
                 want = t0 + least_valid_gap(ch, max(need, buf))
                 if ti_new != want:
